@@ -506,12 +506,26 @@ def main(argv):
         from rewrites import run_guards
         guard_fail = run_guards(needs, snap, scratch, notes, ENV_BASE)
 
-    jobs = a.jobs or min(len(sel), 8 if a.tier == "quick" else 14)
+    # harnesses marked native=1 (concrete-vector self-tests of the oracles) run natively in the
+    # unrewritten snapshot instead of through Kani
+    natives = [h for h in sel if h.attrs.get("native")]
+    sel_kani = [h for h in sel if not h.attrs.get("native")]
+    jobs = a.jobs or min(len(sel), 8 if a.tier == "quick" else 8)
     q = queue.Queue()
     # long ones first
-    for h in sorted(sel, key=lambda h: -h.cap):
+    for h in sorted(sel_kani, key=lambda h: -h.cap):
         q.put(h)
     results = {}
+    for h in natives:
+        out = replayer.run(h, [], "dev", "native")
+        ok = out["verdict"] == "not-reproduced"
+        res0 = parse_kani_log("")
+        res0["cover_total"] = res0["cover_sat"] = 1 if ok else 0
+        res0["checks_total"] = 1
+        results[h.name] = {"verdict": "holds" if ok else "inconclusive",
+                           "reason": "" if ok else "native oracle self-test failed: " + out.get("detail", "")[:300],
+                           "res": res0, "wall_s": out["wall_s"]}
+        log(f"[{h.name}] {'HOLDS' if ok else 'INCONCLUSIVE'} native self-test {results[h.name]['reason']} ({out['wall_s']}s)")
     rlock = threading.Lock()
     playback_lock = threading.Lock()
 
